@@ -477,8 +477,9 @@ def run_property(prop_id, tier, seed):
         assumptions=sorted(assumptions | set(P.get("assumptions", []))),
         wall_s=round(wall, 2), violations=reported,
     )
-    os.makedirs(os.path.join(ROOT, "evidence"), exist_ok=True)
-    with open(os.path.join(ROOT, "evidence", f"{prop_id}.json"), "w") as fh:
+    evdir = os.environ.get("VERIF_EVIDENCE_DIR") or os.path.join(ROOT, "evidence")  # seeded-change runs write elsewhere
+    os.makedirs(evdir, exist_ok=True)
+    with open(os.path.join(evdir, f"{prop_id}.json"), "w") as fh:
         json.dump(ev, fh, indent=1, default=str)
 
     for ln in lines:
